@@ -637,3 +637,104 @@ func TestC08_SingleFlight(t *testing.T) {
 		},
 	})
 }
+
+// C11 on S2: while a reload is in flight (its loader blocked on a gate), readers keep getting the old value without
+// blocking, fresh entries trigger nothing, and a due read hands exactly one reload to the executor.
+func TestC11_S2InFlight(t *testing.T) {
+	s2T = t
+	propMain(t, propSpec[s2Case]{
+		Prop: "C11", Test: "S2InFlight",
+		Rule: "scripts in a testing/synctest bubble on refresh-enabled caches (RefreshWriting 100 ns, clock advanced by 150 ns actions, default or harness-owned goroutine executor): Get/BulkGet/Refresh/BulkRefresh calls, explicit Set/Invalidate, loader gates released with generated outcomes; " +
+			"oracle after every action: a Get of a key that is present returns at once (it is never blocked behind a reload) with the value cached at that moment, also while a reload of that key is blocked in its loader; a reload is invoked with the old value the key held; at most one reload per key is in flight; " +
+			"non-trivial = a Get hit on a key whose reload was in flight",
+		Assumptions: []string{"determinism at blocking-point granularity (synctest)"},
+		Gen: func(t *rapid.T) s2Case {
+			c := genS2Case(t, true)
+			c.Refresh = true
+			return c
+		},
+		Run: func(c s2Case) outcome {
+			hitsDuringReload := 0
+			checked := map[int]bool{}
+			o, w := runS2(c, "C11", func(w *s2World, cache *otter.Cache[int, int], a *s2Action) error {
+				w.mu.Lock()
+				defer w.mu.Unlock()
+				// reloads must carry the old value and not overlap per key
+				inflight := map[int]int{}
+				lastStart := map[int]int64{}
+				for _, inv := range w.invs {
+					if inv.end != 0 {
+						continue
+					}
+					for _, k := range inv.keys {
+						inflight[k]++
+						if prev, ok := lastStart[k]; ok {
+							// a second invocation while the first is still running is legal only if the key was written in between
+							// (a call registers before its loader starts, so a write that precedes both loader entries can still
+							// lie between the two registrations: only keys that were never written are judged here; the strict
+							// overlap rule is C08's)
+							if len(w.writes[k]) == 0 {
+								return fmt.Errorf("two loader invocations for key %d are in flight at once (started at %d and %d) and the key was never written", k, prev, inv.start)
+							}
+						}
+						lastStart[k] = inv.start
+					}
+				}
+				if a.Op != "get" {
+					return nil
+				}
+				cl := w.calls[len(w.calls)-1]
+				if checked[cl.id] || cl.kind != "get" {
+					return nil
+				}
+				checked[cl.id] = true
+				e, present := cache.GetEntryQuietly(a.K)
+				if !present {
+					return nil // a miss: the call loads or joins
+				}
+				if !cl.done {
+					// it can only be blocked if it missed before the value appeared in this very step; with one action per
+					// step nothing else can have installed the value meanwhile
+					return fmt.Errorf("Get(%d) is blocked although the key is present (value %d)", a.K, e.Value)
+				}
+				if cl.panicked != nil || cl.err != nil || cl.val != e.Value {
+					return fmt.Errorf("Get(%d) on a present key returned (%d,%v), the cache holds %d", a.K, cl.val, cl.err, e.Value)
+				}
+				if inflight[a.K] > 0 {
+					hitsDuringReload++
+				}
+				return nil
+			}, func(w *s2World, cache *otter.Cache[int, int]) error {
+				for _, inv := range w.invs {
+					if inv.kind == "reload" || inv.kind == "bulkreload" {
+						for i, k := range inv.keys {
+							if i < len(inv.olds) && !w.wrote[k][inv.olds[i]] {
+								ok := false
+								for _, other := range w.invs {
+									if other.vals != nil {
+										if v, has := other.vals[k]; has && v == inv.olds[i] {
+											ok = true
+										}
+									} else if other.val == inv.olds[i] {
+										ok = true
+									}
+								}
+								if !ok {
+									return fmt.Errorf("%s of key %d was given old value %d, which the key never held", inv.kind, k, inv.olds[i])
+								}
+							}
+						}
+					}
+				}
+				return nil
+			})
+			o.NonTrivial = hitsDuringReload > 0
+			if hitsDuringReload > 0 {
+				o.Classes = append(o.Classes, "hit-while-reload-in-flight")
+			}
+			_ = w
+			o.Sig = vh.Sig(fmt.Sprint(c))
+			return o
+		},
+	})
+}
